@@ -136,6 +136,10 @@ func TestC14PrimaryBackup(t *testing.T) {
 				}
 				return uint(rapid.IntRange(0, int(k)-1).Draw(t, id))
 			})
+		// resources of a deployment refuse now and then (a send that cannot be delivered, a section at pre-commit): the
+		// section aborts and is retried, and nothing else may follow from it
+		p.Store.RefuseWritePct = rapid.SampledFrom([]int{0, 0, 10, 30}).Draw(t, "write-refusals")
+		p.Store.RefusePct = rapid.SampledFrom([]int{0, 0, 5, 20}).Draw(t, "precommit-refusals")
 		if err := p.Sim.Start(); err != nil {
 			t.Fatalf("INCONCLUSIVE: %v", err)
 		}
